@@ -148,13 +148,10 @@ class Setup:
         d = np.asarray(raw)
         where = 'dvect[%s] pbc=%r' % (self.route, pbc)
         require(d.dtype.kind == 'f', lambda: '%s returned dtype %r' % (where, d.dtype))
-        if self.route == 'func':
-            require(d.shape == (self.N, 3), lambda: '%s returned shape %r for inputs of %d and %d points'
-                    % (where, d.shape, self.n0, self.n1))
-        else:   # System.* returns the single vector for a single pair
-            require(d.shape == (self.N, 3) or (self.N == 1 and d.shape == (3,)),
-                    lambda: '%s returned shape %r for %d and %d points' % (where, d.shape, self.n0, self.n1))
-            d = d.reshape(-1, 3)
+        # one row per broadcast pair; a single pair may come back as the bare vector (System.* does that)
+        require(d.shape == (self.N, 3) or (self.N == 1 and d.shape == (3,)),
+                lambda: '%s returned shape %r for inputs of %d and %d points' % (where, d.shape, self.n0, self.n1))
+        d = d.reshape(-1, 3)
         require(bool(np.all(np.isfinite(d))), lambda: '%s returned non-finite values %r' % (where, d))
         return np.array(d, dtype=float)
 
@@ -163,13 +160,9 @@ class Setup:
         m = np.asarray(raw)
         where = 'dmag[%s] pbc=%r' % (self.route, pbc)
         require(m.dtype.kind == 'f', lambda: '%s returned dtype %r' % (where, m.dtype))
-        if self.route == 'func':
-            require(m.shape == (self.N,), lambda: '%s returned shape %r for inputs of %d and %d points'
-                    % (where, m.shape, self.n0, self.n1))
-        else:
-            require(m.shape == (self.N,) or (self.N == 1 and m.shape == ()),
-                    lambda: '%s returned shape %r for %d and %d points' % (where, m.shape, self.n0, self.n1))
-            m = m.reshape(-1)
+        require(m.shape == (self.N,) or (self.N == 1 and m.shape == ()),
+                lambda: '%s returned shape %r for inputs of %d and %d points' % (where, m.shape, self.n0, self.n1))
+        m = m.reshape(-1)
         require(bool(np.all(np.isfinite(m))), lambda: '%s returned non-finite values %r' % (where, m))
         return np.array(m, dtype=float)
 
@@ -451,8 +444,6 @@ def oracle_displacement(case):
             if 'boxes_differ' in labs:
                 labs.add('nt_boxes_differ')
     refsys.pbc = pbc_other
-    # the operands must be left untouched
-    require(np.array_equal(sys0.atoms.pos, P0) and np.array_equal(sys1.atoms.pos, P1), 'displacement() modified the positions of its operands')
     return labs
 
 
